@@ -179,9 +179,11 @@ def git_fault_campaign(chk, b, rng, tier, scratch):
             if tname.startswith("large"):
                 pts = sorted(set([0, 1, L // 3, L // 2, L - 1, L] + ([65536, 65537, 70000] if L > 70000 else [])))
                 pts = [p for p in pts if 0 <= p <= L]
-            terms = TERMS if thorough else None
+            # status 1 is the documented "not set" answer of `git config --get`; from every other child it is a failure
+            T1 = TERMS if e["sig"].startswith("config --get") else ["exit:1"] + TERMS
+            terms = T1 if thorough else None
             for n in pts:
-                for term in (terms or [rng.choice(TERMS[:2]), rng.choice(TERMS[2:])]):
+                for term in (terms or [rng.choice(T1[:3]), rng.choice(T1[3:])]):
                     jobs.append((sz, shimdir, gitdir, argv, {"sig": e["sig"], "ord": e["ord"], "mode": "fault",
                                                              "after_bytes": n, "term": term}, baseline, d, jid))
                     jid += 1
